@@ -81,7 +81,14 @@ static Length	lastlno, lastftell;
 SrcPos
 sposOffset(SrcPos p, int c)
 {
-    return (((p >> SPOS_CNO_SHIFT)+c) << SPOS_CNO_SHIFT) | (p & SPOS_MAC_MASK);
+    /* Move within the line: the column saturates instead of carrying into the line number. */
+    long cmax = SPOS_CNO_MASK >> SPOS_CNO_SHIFT;
+    long cno  = (long) ((p & SPOS_CNO_MASK) >> SPOS_CNO_SHIFT) + c;
+
+    if (cno < 0)    cno = 0;
+    if (cno > cmax) cno = cmax;
+
+    return (p & ~SPOS_CNO_MASK) | (cno << SPOS_CNO_SHIFT);
 }
 
 Bool
@@ -310,6 +317,10 @@ sposNew(FileName fname, Length flno, Length glno, Length cno)
 	  
 	  sposGrowGloLineTbl(fname, flno, glno);
 	
+
+	/* The column field is narrow: do not let it spill into the line. */
+	if (cno > (SPOS_CNO_MASK >> SPOS_CNO_SHIFT))
+		cno = SPOS_CNO_MASK >> SPOS_CNO_SHIFT;
 
 	return sposSet(glno, cno);
 }
